@@ -67,8 +67,8 @@ def shards(tier, seed):
     for k in range(4 if q else 8):
         out.append({"kind": "sampled", "seed": seed, "shard": i, "n": 25 if q else 400})
         i += 1
-    for k in range(2 if q else 4):
-        out.append({"kind": "align", "seed": seed, "shard": i, "n": 12 if q else 200})
+    for k in range(3 if q else 4):
+        out.append({"kind": "align", "seed": seed, "shard": i, "n": 25 if q else 300})
         i += 1
     return out
 
@@ -677,7 +677,7 @@ def gen_align_cfg(rng):
            "sstep": rng.choice([1200, 3600, 5400]), "slen": rng.choice([600, 3000, 9000]),
            "soff": rng.choice([0, -1800, 900, 3600]),
            "mi": rng.choice([None, None, 600, 3600])}
-    if rng.random() < 0.3:
+    if rng.random() < 0.5:
         who = rng.choice(["p", "s"])
         k = rng.randrange(cfg["np"] if who == "p" else cfg["ns"])
         cfg["fail_read"] = ["f%d" % ((1 if who == "p" else 1001) + k)]
